@@ -8,7 +8,13 @@ B_NOTE = ('Trusted base: the stub contracts of the stdlib primitives (engine_b/s
           'threads); inside a configuration the inductive invariant covers every schedule, input and run length.')
 B_TECH = ('thread-modular symbolic execution of the real code on symbolic primitives + SMT inductive-invariant check '
           '(z3: initiation / consecution / safety / progress over a learned state set), counterexamples replayed on real primitives')
+A_NOTE = ('Trusted base: CrossHair 0.0.110 + z3 (its models of int/list/str and its path exploration: "Confirmed over all paths" '
+          'is taken as exhaustive within the `pre:` bounds), the stubs of the environment written in each harness, and the reference '
+          'oracle in the harness. Counterexamples are re-run concretely without CrossHair before being reported.')
+A_TECH = 'CrossHair symbolic execution (z3) of the real functions over symbolic inputs within `pre:` bounds; reachability twin per condition; concrete replay of counterexamples'
 CHECKS = {
+    'C03': ('A', 'other', 'Operator interactions form a program space; the check enumerates the operator skeletons and leaves elements and parameters symbolic, so boundary sizes (1, len, len+1), empty batches and parameter combinations are covered by the solver rather than by examples.', '3 C03'),
+    'C19': ('A', 'other', 'Timing rules can only be checked exactly under a virtual clock; arrival gaps, batch size and wait are symbolic, and the virtual time of every yield is compared with the documented rule.', '3 C19'),
     'C17': ('B', 'model_checking', 'Loss, duplication, an unfinished consumer or a leaked end marker need particular interleavings of the token-queue operations of several consumers; the solver covers all of them for the listed numbers of suppliers, consumers, items and rounds (one listed known finding excluded by its signature).', '3 C17'),
     'C10': ('B', 'model_checking', 'Every TeeX field, head.value and the source position are symbolic cells, so the solver covers preemption between any two lines of the fork step; wedges (deadlock, spin trap on a leaked lock), lost or reordered elements and wrong endings are shown unreachable for the listed sizes and every source failure position.', '3 C10'),
     'C02': ('B', 'model_checking', 'For the listed caller/stream configurations the solver proves that every caller of the real Server.call / stream receives the result of its own request (or its own failure) under every schedule of callers, servlet stub, gather and notify threads: lost or crossed responses need a result to arrive inside a window between two statements.', '3 C02'),
